@@ -70,6 +70,20 @@ pub proof fn ax_priors(s: SegmentIndex, i: int)
     requires valid(first_loc(s)), 0 <= i < seg_priors(s).len()
     ensures valid(seg_priors(s)[i]), anc(seg_priors(s)[i], first_loc(s)), seg_priors(s)[i].segment != s, seg_priors(s).len() <= 2
 { admit(); }
+/// A3 a command outside a segment is an ancestor of a command of that segment iff it is (an ancestor of or equal to) one of the segment's priors
+pub proof fn ax_cross_segment(a: Location, b: Location)
+    requires valid(a), valid(b), a.segment != b.segment
+    ensures anc(a, b) <==> exists|i: int| 0 <= i < seg_priors(b.segment).len() && anc_eq(a, #[trigger] seg_priors(b.segment)[i])
+{ admit(); }
+/// A4 (second half) skip entries are spine nodes: every ancestor of the segment's first command whose max cut is not above theirs passes through them
+pub proof fn ax_skip(s: SegmentIndex, i: int, a: Location)
+    requires valid(first_loc(s)), 0 <= i < seg_skips(s).len()
+    ensures anc(a, first_loc(s)) && a.max_cut <= seg_skips(s)[i].max_cut ==> anc_eq(a, seg_skips(s)[i])
+{ admit(); }
+/// e dominates x: e is an ancestor-or-self of x through which every ancestor-or-self of x with a max cut not above e's passes
+pub open spec fn dominates(e: Location, x: Location) -> bool {
+    anc_eq(e, x) && forall|a: Location| #![trigger anc_eq(a, x)] anc_eq(a, x) && a.max_cut <= e.max_cut ==> anc_eq(a, e)
+}
 /// skip entries are proper ancestors of the segment's first command (first half of A4)
 pub proof fn ax_skip_anc(s: SegmentIndex, i: int)
     requires valid(first_loc(s)), 0 <= i < seg_skips(s).len()
@@ -120,6 +134,67 @@ proof fn lemma_first_is_anc_eq(l: Location)
     ax_valid_range(l);
     if first_loc(l.segment) != l { ax_in_segment(first_loc(l.segment), l); }
 }
+
+/// `n` is a one-step cut below `c`: a proper ancestor of c that every ancestor of c with a max cut not above n's passes through
+pub open spec fn step_cut(n: Location, c: Location) -> bool {
+    anc(n, c) && forall|a: Location| #![trigger anc(a, c)] anc(a, c) && a.max_cut <= n.max_cut ==> anc_eq(a, n)
+}
+proof fn lemma_dom_step(n: Location, c: Location, x: Location)
+    requires dominates(c, x), step_cut(n, c) ensures dominates(n, x)
+{
+    lemma_anc_eq_trans(n, c, x);
+    ax_anc(n, c);
+    assert forall|a: Location| #![trigger anc_eq(a, x)] anc_eq(a, x) && a.max_cut <= n.max_cut implies anc_eq(a, n) by {
+        assert(anc_eq(a, c));
+        assert(a != c);
+        assert(anc(a, c));
+    }
+}
+/// the previous command inside a segment
+proof fn lemma_cut_prev(c: Location, n: Location)
+    requires valid(c), n.segment == c.segment, n.max_cut + 1 == c.max_cut, seg_first(c.segment) <= n.max_cut
+    ensures valid(n), step_cut(n, c)
+{
+    ax_valid_range(c);
+    ax_valid_in_range(c.segment, n.max_cut);
+    ax_in_segment(n, c);
+    lemma_first_is_anc_eq(n);
+    assert forall|a: Location| #![trigger anc(a, c)] anc(a, c) && a.max_cut <= n.max_cut implies anc_eq(a, n) by {
+        ax_anc(a, c);
+        if a.segment == c.segment {
+            if a != n { ax_in_segment(a, n); }
+        } else {
+            ax_cross_segment(a, c);
+            let i = choose|i: int| 0 <= i < seg_priors(c.segment).len() && anc_eq(a, #[trigger] seg_priors(c.segment)[i]);
+            ax_priors(c.segment, i);
+            lemma_anc_eq_trans(a, seg_priors(c.segment)[i], first_loc(c.segment));
+            lemma_anc_eq_trans(a, first_loc(c.segment), n);
+        }
+    }
+}
+/// the single prior of a segment, seen from the segment's first command
+proof fn lemma_cut_single(c: Location)
+    requires valid(c), c == first_loc(c.segment), seg_priors(c.segment).len() == 1
+    ensures step_cut(seg_priors(c.segment)[0], c)
+{
+    ax_priors(c.segment, 0);
+    assert forall|a: Location| #![trigger anc(a, c)] anc(a, c) && a.max_cut <= seg_priors(c.segment)[0].max_cut implies anc_eq(a, seg_priors(c.segment)[0]) by {
+        ax_anc(a, c);
+        ax_valid_range(a);
+        if a.segment != c.segment { ax_cross_segment(a, c); }
+    }
+}
+/// the recorded LCA of a merge segment (its last skip entry), seen from the segment's first command: axiom A4 for that entry
+proof fn lemma_cut_merge(c: Location)
+    requires valid(c), c == first_loc(c.segment), seg_skips(c.segment).len() > 0
+    ensures step_cut(seg_skips(c.segment)[seg_skips(c.segment).len() - 1], c)
+{
+    let li = seg_skips(c.segment).len() - 1;
+    ax_skip_anc(c.segment, li);
+    assert forall|a: Location| #![trigger anc(a, c)] anc(a, c) && a.max_cut <= seg_skips(c.segment)[li].max_cut implies anc_eq(a, seg_skips(c.segment)[li]) by {
+        ax_skip(c.segment, li, a);
+    }
+}
 '''
 
 PREVIOUS = FnSpec(M, 'previous', r'pub trait Segment\b', contract="""
@@ -137,6 +212,9 @@ LCA_PAIR = FnSpec(B, 'lca_pair', attrs='#[verifier::spinoff_prover]',
     contract="""
         requires valid(left), valid(right),
         ensures r is Ok, valid(r->Ok_0), anc_eq(r->Ok_0, left), anc_eq(r->Ok_0, right),
+            // and it is a cut: no ancestor of either side at or below its max cut bypasses it
+            // (this is what makes a merge segment's recorded LCA a valid skip entry — axiom A4 for that entry)
+            dominates(r->Ok_0, left), dominates(r->Ok_0, right),
 """,
     rewrites=[
         ('Some(previous) => *location = previous,', '''Some(previous) => {
@@ -144,6 +222,8 @@ LCA_PAIR = FnSpec(B, 'lca_pair', attrs='#[verifier::spinoff_prover]',
                     ax_valid_in_range(cur.segment, previous.max_cut);
                     ax_in_segment(previous, cur);
                     lemma_anc_eq_trans(previous, cur, cur0);
+                    lemma_cut_prev(cur, previous);
+                    lemma_dom_step(previous, cur, cur0);
                 }
                 *location = previous
             }''', 1, 'ghost proof block added inside the arm (the assignment is unchanged)'),
@@ -160,6 +240,7 @@ LCA_PAIR = FnSpec(B, 'lca_pair', attrs='#[verifier::spinoff_prover]',
         ('after', 'while left != right', """
         invariant
             valid(left), valid(right), anc_eq(left, left0), anc_eq(right, right0),
+            dominates(left, left0), dominates(right, right0),
             left_seg.idx == left.segment, left_seg.wf(), right_seg.idx == right.segment, right_seg.wf(),
         decreases left.max_cut + right.max_cut,
 """),
@@ -184,6 +265,8 @@ LCA_PAIR = FnSpec(B, 'lca_pair', attrs='#[verifier::spinoff_prover]',
                         ax_priors(cur.segment, 0);
                         lemma_anc_eq_trans(seg_priors(cur.segment)[0], cur, cur0);
                         ax_anc(seg_priors(cur.segment)[0], cur);
+                        lemma_cut_single(cur);
+                        lemma_dom_step(seg_priors(cur.segment)[0], cur, cur0);
                     } else {
                         ax_priors(cur.segment, 0);
                         ax_merge_has_lca(cur.segment);
@@ -191,6 +274,8 @@ LCA_PAIR = FnSpec(B, 'lca_pair', attrs='#[verifier::spinoff_prover]',
                         ax_skip_anc(cur.segment, li);
                         lemma_anc_eq_trans(seg_skips(cur.segment)[li], cur, cur0);
                         ax_anc(seg_skips(cur.segment)[li], cur);
+                        lemma_cut_merge(cur);
+                        lemma_dom_step(seg_skips(cur.segment)[li], cur, cur0);
                     }
                 }"""),
     ])
